@@ -1359,7 +1359,13 @@ impl<'a> UserModel<'a> {
         }
         let mut diff_list = Vec::new();
         for column in column_start..=column_end {
-            let old_value = self.model.get_column_width(sheet, column)?;
+            // the width the column has when shown: `get_column_width` is 0 for a hidden column,
+            // and undo would then set that 0 as its width
+            let old_value = self
+                .model
+                .workbook
+                .worksheet(sheet)?
+                .get_actual_column_width(column)?;
             diff_list.push(Diff::SetColumnWidth {
                 sheet,
                 column,
@@ -1529,7 +1535,13 @@ impl<'a> UserModel<'a> {
         }
         let mut diff_list = Vec::new();
         for row in row_start..=row_end {
-            let old_value = self.model.get_row_height(sheet, row)?;
+            // the height the row has when shown: `get_row_height` is 0 for a hidden row,
+            // and undo would then set that 0 as its height
+            let old_value = self
+                .model
+                .workbook
+                .worksheet(sheet)?
+                .get_actual_row_height(row)?;
             diff_list.push(Diff::SetRowHeight {
                 sheet,
                 row,
